@@ -595,9 +595,30 @@ class Interp:
             if a:
                 return (INT, 1)
             return (INT, 1 if self.truth(self.ev(e[3])) else 0)
-        a = self.ev(e[2])
-        b = self.ev(e[3])
+        if "unary-fold-unreduced" in self.D and is_const_expr(e[2]) and is_const_expr(e[3]):
+            # both operands are folded at compile time: a folded ~ / - keeps its mathematical value
+            a = self.ev_raw(e[2])
+            b = self.ev_raw(e[3])
+            if op in ("+", "-", "*") and is_int(a[0]) and is_int(b[0]):
+                # the fold computes on the mathematical values and reduces only the result
+                R = common(a[0], b[0])
+                v = a[1] + b[1] if op == "+" else (a[1] - b[1] if op == "-" else a[1] * b[1])
+                return (R, wrap(v, R))
+        else:
+            a = self.ev(e[2])
+            b = self.ev(e[3])
         return self.arith(op, a, b)
+
+    def ev_raw(self, e):
+        x = cparse.strip_paren(e)
+        if x[0] == "un" and x[1] in ("~", "-") and is_const_expr(x[2]):
+            T, v = self.ev_raw(x[2])
+            if is_int(T):
+                P = promote(T)
+                if x[1] == "-" and "neg-literal-signed" in self.D:
+                    P = (True, P[1])
+                return (P, ~v if x[1] == "~" else -v)  # not reduced to the range of P
+        return self.ev(e)
 
     def arith(self, op, a, b, compound=False):
         TA, va = a
